@@ -95,6 +95,7 @@ var Mutants = map[string][]Mutant{
 		{"number table larger than the buffer", "path.go", `\t\t'A': 7,\n`, "\t\t'A': 8,\n", "E4.table-bound"},
 	},
 	"C12": {
+		{"PDF dash phase normalised before odd-length doubling", "renderers/pdf/writer.go", `(\tif len\(dashArray\)%2 == 1 \{\n\t\tdashArray = append\(dashArray, dashArray\.\.\.\)\n\t\}\n)\n((?:.*\n){10})\n\tdashes := append\(dashArray, dashPhase\)`, "$2\n$1\n\tdashes := append(dashArray, dashPhase)", "E6.dash-period"},
 		{"gradient bounds use a fixed stop", "renderers/pdf/writer.go", `bounds = append\(bounds, stops\[i\]\.Offset\)`, "bounds = append(bounds, stops[1].Offset)", "E11.const-index-in-loop"},
 		{"PS fill colour set after gsave", "renderers/ps/ps.go", `\t\tr\.setPaint\(style\.Fill\)\n\t\tif style\.HasStroke\(\) && !strokeUnsupported \{\n\t\t\tr\.w\.Write\(\[\]byte\(" gsave"\)\)\n\t\t\}\n`, "\t\tif style.HasStroke() && !strokeUnsupported {\n\t\t\tr.w.Write([]byte(\" gsave\"))\n\t\t}\n\t\tr.setPaint(style.Fill)\n", "E6.ps-grammar"},
 		{"PDF image opacity set inside q/Q again", "renderers/pdf/writer.go", `\tm = m\.Scale\(float64\(size\.X\), float64\(size\.Y\)\)\n\tfmt\.Fprintf\(w, " %v %v %v %v %v %v cm /%v Do Q"`, "\tm = m.Scale(float64(size.X), float64(size.Y))\n\tw.SetAlpha(0.5)\n\tfmt.Fprintf(w, \" %v %v %v %v %v %v cm /%v Do Q\"", "E5.grammar"},
@@ -117,6 +118,8 @@ var Mutants = map[string][]Mutant{
 		{"stroke keeps even-odd star", "renderers/pdf/pdf.go", `\t\t\tif closed \{\n\t\t\t\tr\.w\.Write\(\[\]byte\(" s"\)\)\n\t\t\t\} else \{\n\t\t\t\tr\.w\.Write\(\[\]byte\(" S"\)\)\n\t\t\t\}\n\t\t\} else if style\.HasFill\(\) && style\.HasStroke\(\) \{`, "\t\t\tif closed {\n\t\t\t\tr.w.Write([]byte(\" s\"))\n\t\t\t} else {\n\t\t\t\tr.w.Write([]byte(\" S\"))\n\t\t\t}\n\t\t\tif style.FillRule == canvas.EvenOdd {\n\t\t\t\tr.w.Write([]byte(\"*\"))\n\t\t\t}\n\t\t} else if style.HasFill() && style.HasStroke() {", "E5.grammar"},
 	},
 	"C14": {
+		{"last open subpath not closed for the scanner", "path.go", `\tif open \{\n\t\t// implicitly close path\n\t\tras\.Line\(fixedPoint26_6\(first\.X\*dpmm, dy-first\.Y\*dpmm\)\)\n\t\}\n`, "", "E6.implicit-close"},
+		{"open flag also set by MoveTo", "path.go", `\t\t\topen = false\n\t\t\} else \{\n\t\t\topen = true\n`, "\t\t\topen = cmd == CloseCmd && false\n\t\t} else {\n\t\t\topen = false\n", "E6.implicit-close"},
 		{"gradient sampled at pixel coordinates", "renderers/rasterizer/rasterizer.go", `return gradient\.At\(float64\(x\)/dpmm, float64\(size\.Y-y\)/dpmm\)\n\t\t\t\}\)\)\n\t\t\tfill\.`, "return gradient.At(float64(x), float64(size.Y-y)/dpmm)\n\t\t\t}))\n\t\t\tfill.", "E12.units"},
 		{"scanner fed millimetres", "path.go", `ras\.Start\(fixedPoint26_6\(p\.d\[i\+1\]\*dpmm, dy-p\.d\[i\+2\]\*dpmm\)\)`, "ras.Start(fixedPoint26_6(p.d[i+1], dy-p.d[i+2]*dpmm))", "E12.units"},
 		{"image height scaled twice", "path.go", `ras\.Line\(fixedPoint26_6\(q\.d\[j\+1\]\*dpmm, dy-q\.d\[j\+2\]\*dpmm\)\)`, "ras.Line(fixedPoint26_6(q.d[j+1]*dpmm, dy*dpmm-q.d[j+2]*dpmm))", "E12.units"},
@@ -148,12 +151,17 @@ var Mutants = map[string][]Mutant{
 		{"Linebreak looks at items[b+1] unguarded", "text/linebreak.go", `\(len\(lb\.items\) <= b\+1 \|\| lb\.items\[b\+1\]\.Type != PenaltyType\)`, `lb.items[b+1].Type != PenaltyType`, "E4.neighbour-guard"},
 	},
 	"C18": {
+		{"W range entry carries the next run's width", "renderers/pdf/writer.go", `W = append\(W, j, k-1, widths\[j\]\)`, "W = append(W, j, k-1, width)", "E5.w-run"},
+		{"trailing W entry stops at the sentinel", "renderers/pdf/writer.go", `for _, w := range widths\[i:\] \{`, "for _, w := range widths[i:j] {", "E5.w-run"},
 		{"subsetter re-created per writing direction", "renderers/pdf/writer.go", `\tif _, ok := w\.fontSubset\[font\]; !ok \{\n(.*\n)?\t\tw\.fontSubset\[font\] = canvas\.NewFontSubsetter\(\)\n\t\}\n`, "\tw.fontSubset[font] = canvas.NewFontSubsetter()\n", "E5.subset-once"},
 		{"subsetter starts empty", "font.go", `IDs:   \[\]uint16\{0\}, // \.notdef should always be at zero`, `IDs:   []uint16{},`, "E11.subsetter"},
 		{"Get records the mapping before appending", "font.go", `\tsubsetGlyphID := uint16\(len\(subsetter\.IDs\)\)\n\tsubsetter\.IDs = append\(subsetter\.IDs, glyphID\)\n`, "\tsubsetter.IDs = append(subsetter.IDs, glyphID)\n\tsubsetGlyphID := uint16(len(subsetter.IDs))\n", "E11.subsetter"},
 		{"vertical fonts written as horizontal", "renderers/pdf/writer.go", `w\.writeFonts\(w\.fontsV, true\)`, `w.writeFonts(w.fontsV, false)`, "E5.fontmaps"},
 	},
 	"C19": {
+		{"translate(tx) moves along both axes", "svg.go", `m = m\.Translate\(d\[0\], 0\.0\)`, "m = m.Translate(d[0], d[0])", "E11.svg-transform"},
+		{"matrix() transposed", "svg.go", `Matrix\{\{d\[0\], d\[2\], d\[4\]\}, \{d\[1\], d\[3\], d\[5\]\}\}`, "Matrix{{d[0], d[1], d[4]}, {d[2], d[3], d[5]}}", "E11.svg-transform"},
+		{"rotate accepts two arguments", "svg.go", `if len\(d\) != 1 && len\(d\) != 3 \{`, "if len(d) < 1 || 3 < len(d) {", "E11.svg-transform"},
 		{"CSS selector buffer re-used", "svg.go", `selectors = selectors\[:0:0\]`, `selectors = selectors[:0]`, "E11.reuse-after-escape"},
 		{"pica is 1/12 inch", "svg.go", `return num \* 96\.0 / 6\.0`, `return num * 96.0 / 12.0`, "E11.svg-dimension"},
 		{"importer keeps y up", "svg.go", `svg\.ctx\.SetCoordSystem\(CartesianIV\)`, `svg.ctx.SetCoordSystem(CartesianI)`, "E11.svg-size"},
